@@ -36,4 +36,8 @@ def run(F, tier):
     rx = re.compile(r"^<(%s) as traits::SwiftField>::parse(_with_variant)?$" % "|".join(re.escape(e) for e in enums))
     accept.u6(rep, F, ("options", rx, 25))
     accept.u7(rep, F, ("options", rx, 25))
+    # message-level routing of option letters done by hand (a helper that looks at the next tag itself)
+    mh = ("message-helpers", re.compile(r"^messages::\w+::\w+::parse_(?!from_block4)"), 1)
+    accept.u6(rep, F, mh)
+    accept.u7(rep, F, mh)
     return rep
